@@ -158,8 +158,11 @@ func c9Once(c *Ctx) {
 			}
 			dom := false
 			for _, cl := range Calls(a.Fn) {
-				if (StaticCallee(cl) == oi.wrapper || cl == oi.doCall) && Dominates(cl, a.Instr) && Desc(Args(cl)[0]) == Desc(a.Base) {
+				if StaticCallee(cl) == oi.wrapper && Dominates(cl, a.Instr) && Desc(Args(cl)[0]) == Desc(a.Base) {
 					dom = true
+				}
+				if fa, isFA := Args(cl)[0].(*ssa.FieldAddr); cl == oi.doCall && isFA && Dominates(cl, a.Instr) && Desc(fa.X) == Desc(a.Base) {
+					dom = true // after the Do itself, in the wrapper
 				}
 			}
 			c.Check(dom, "R9.2", fname, slot, a.Instr.Pos(), "read of once-published %s.%s is preceded on every path by %s() (sync.Once gives the happens-before edge); an unsynchronised read races with the first-use initialisation", Desc(a.Base), a.Field, oi.wrapper.Name())
